@@ -1,5 +1,6 @@
 import WP.Props.Reach
 import WP.Props.GrowthPath
+import WP.Props.RewardPath
 /-
   C07 at every reachable state: the fee-growth accounting theorem of one swap
   (`Growth.swap_fee_growth`) applies to EVERY swap of EVERY history, because its extra hypothesis —
@@ -359,5 +360,402 @@ example : (∃ s' outs, histStep ((exOps.take 4).foldl histApply { pool := exPoo
   cases h : histStep ((exOps.take 4).foldl histApply { pool := exPool, now := 10 }) (.swap 6450000 0 true true [0, -5632]) with
   | error e => rw [h] at this; cases this
   | ok r => exact ⟨r.1, r.2, rfl⟩
+
+
+/-! ### the same for rewards (C11) -/
+
+structure WfR (s : HistState) : Prop where
+  ticks : RewardsWF s.ticks
+  glob : ∀ r ∈ s.pool.rewards, r.growth < TWO128
+
+theorem next_rewards_wf (p : PoolD) (now : Nat) (rewards : List RewardInfo) (hp : ∀ r ∈ p.rewards, r.growth < TWO128)
+    (h : nextRewardInfos p now = .ok rewards) : ∀ r ∈ rewards, r.growth < TWO128 := by
+  unfold nextRewardInfos at h
+  split at h
+  · cases h
+  · split at h
+    · cases h; exact hp
+    · cases h
+      intro r hr
+      obtain ⟨r0, hr0, e⟩ := List.mem_map.mp hr
+      rw [← e]
+      split
+      · exact hp r0 hr0
+      · exact C07.wadd_lt _ _
+
+theorem getD_growth_lt (rewards : List RewardInfo) (h : ∀ r ∈ rewards, r.growth < TWO128) (i : Nat) :
+    ((rewards.map (·.growth)).getD i 0) < TWO128 := by
+  have hz : (0 : Nat) < TWO128 := by decide
+  unfold List.getD
+  cases hget : (rewards.map (·.growth))[i]? with
+  | none => exact hz
+  | some g =>
+    have hm : g ∈ rewards.map (·.growth) := List.mem_of_getElem? hget
+    obtain ⟨r, hr, e⟩ := List.mem_map.mp hm
+    show g < TWO128
+    rw [← e]; exact h r hr
+
+theorem tickModify_wfR (t t' : TickData) (tickIndex cur : Int) (fgA fgB : Nat) (rw : List RewardInfo) (delta : Int) (isUpper : Bool)
+    (ht : ∀ i, i < 3 → ro i t < TWO128) (hrw : ∀ r ∈ rw, r.growth < TWO128)
+    (h : nextTickModifyLiquidityUpdate t tickIndex cur fgA fgB rw delta isUpper = .ok t') :
+    ∀ i, i < 3 → ro i t' < TWO128 := by
+  have hz : (0 : Nat) < TWO128 := by decide
+  have hdef : ∀ i, ro i ({} : TickData) < TWO128 := by
+    intro i
+    unfold ro List.getD
+    show (([0, 0, 0] : List Nat)[i]?).getD 0 < TWO128
+    match i with
+    | 0 => exact hz
+    | 1 => exact hz
+    | 2 => exact hz
+    | (k + 3) => exact hz
+  unfold nextTickModifyLiquidityUpdate at h
+  split at h
+  · cases h; exact ht
+  · split at h
+    · cases h
+    · split at h
+      · cases h; intro i _; exact hdef i
+      · split at h
+        rename_i oa ob orw heq
+        have horw : ∀ i, i < 3 → orw.getD i 0 < TWO128 := by
+          split at heq
+          · split at heq
+            · cases heq; intro i _; exact getD_growth_lt rw hrw i
+            · cases heq; intro i _; exact hdef i
+          · cases heq; exact ht
+        split at h
+        · cases h
+        · cases h; exact horw
+
+theorem wfR_modify (s s' : HistState) (id amount : Nat) (positive : Bool) (outs : List Nat) (w : WfR s)
+    (h : histStep s (.modify id amount positive) = .ok (s', outs)) : WfR s' := by
+  unfold histStep at h
+  simp only [] at h
+  split at h
+  · cases h
+  · split at h
+    · cases h
+    · split at h
+      · cases h
+      · rename_i pos hpos
+        split at h
+        · cases h
+        · rename_i u hu
+          have hboth : RewardsWF ((s.ticks.set pos.lower u.tickLower).set pos.upper u.tickUpper) ∧
+              ∀ r ∈ u.rewards, r.growth < TWO128 := by
+            generalize (if positive = true then (amount : Int) else -(amount : Int)) = delta at hu
+            unfold calculateModifyLiquidity at hu
+            split at hu
+            · cases hu
+            · split at hu
+              · cases hu
+              · rename_i rewards hrw
+                have hrwf := next_rewards_wf _ _ _ w.glob hrw
+                split at hu
+                · cases hu
+                · split at hu
+                  · cases hu
+                  · rename_i tlu htl
+                    split at hu
+                    · cases hu
+                    · rename_i tuu htu
+                      simp only [] at hu
+                      split at hu
+                      · cases hu
+                      · cases hu
+                        have a := tickModify_wfR _ _ _ _ _ _ _ _ _ (fun i hi => w.ticks pos.lower i hi) hrwf htl
+                        have b := tickModify_wfR _ _ _ _ _ _ _ _ _ (fun i hi => w.ticks pos.upper i hi) hrwf htu
+                        refine ⟨?_, hrwf⟩
+                        intro t i hi
+                        rw [C05.tick_get_set]
+                        by_cases e : t = pos.upper
+                        · rw [if_pos e]; exact b i hi
+                        · rw [if_neg e, C05.tick_get_set]
+                          by_cases e2 : t = pos.lower
+                          · rw [if_pos e2]; exact a i hi
+                          · rw [if_neg e2]; exact w.ticks t i hi
+          split at h
+          · cases h
+          · split at h
+            · simp only [Except.ok.injEq, Prod.mk.injEq] at h
+              obtain ⟨h1, _⟩ := h
+              subst h1
+              exact { ticks := hboth.1, glob := hboth.2 }
+            · split at h
+              · cases h
+              · simp only [Except.ok.injEq, Prod.mk.injEq] at h
+                obtain ⟨h1, _⟩ := h
+                subst h1
+                exact { ticks := hboth.1, glob := hboth.2 }
+
+/-- **C11 for a swap of a history state** -/
+theorem swap_step_reward (s s' : HistState) (amount limit : Nat) (isInput aToB : Bool) (arrays : List Int) (outs : List Nat)
+    (inv : Inv s) (g : Geo ts0 s) (w : WfR s) (hseq : SeqOK arrays s.pool.ts aToB) (hamt : amount ≤ U64_MAX)
+    (h : histStep s (.swap amount limit isInput aToB arrays) = .ok (s', outs)) :
+    WfR s' ∧ nextRewardInfos s.pool s.now = .ok s'.pool.rewards ∧
+      ∀ i, i < 3 → (s'.pool.rewards.getD i {}).initialized = true → ∀ lo hi, lo < hi → Bound s.positions lo → Bound s.positions hi →
+        C07.insideInit s'.pool.tick lo (ro i (s'.ticks.get lo)) hi (ro i (s'.ticks.get hi)) (s'.pool.rewards.getD i {}).growth =
+          C07.insideInit s.pool.tick lo (ro i (s.ticks.get lo)) hi (ro i (s.ticks.get hi)) (s'.pool.rewards.getD i {}).growth := by
+  unfold histStep at h
+  simp only [] at h
+  split at h
+  · cases h
+  · split at h
+    · cases h
+    · rename_i u hsw
+      obtain ⟨rewards, q1, q2, q3, q4⟩ := swap_reward_growth s.pool s.ticks s.positions arrays amount limit isInput aToB s.now SWAP_FUEL s.af u
+        g.ts hseq inv.liq (tickFacts_of s inv g) g.tp g.liqU g.fee hamt g.af w.ticks w.glob hsw
+      have hf : (updateAfterSwap s.pool u aToB s.now).rewards = u.rewards ∧ (updateAfterSwap s.pool u aToB s.now).tick = u.tick := by
+        unfold updateAfterSwap
+        simp only []
+        split <;> exact ⟨rfl, rfl⟩
+      split at h
+      · cases h
+      · split at h
+        · cases h
+        · simp only [Except.ok.injEq, Prod.mk.injEq] at h
+          obtain ⟨h1, _⟩ := h
+          have e1 : s'.pool = updateAfterSwap s.pool u aToB s.now := by rw [← h1]
+          have e2 : s'.ticks = u.ticks := by rw [← h1]
+          have e3 : s'.pool.rewards = rewards := by rw [e1, hf.1, q2]
+          refine ⟨{ ticks := by rw [e2]; exact q3, glob := by rw [e3]; exact next_rewards_wf _ _ _ w.glob q1 }, by rw [e3]; exact q1, ?_⟩
+          intro i hi hinit lo hi' hlh bl bh
+          rw [e3] at hinit ⊢
+          rw [e1, hf.2, e2]
+          exact q4 i hi hinit lo hi' hlh bl bh
+
+
+theorem getD_info_lt (rewards : List RewardInfo) (h : ∀ r ∈ rewards, r.growth < TWO128) (i : Nat) :
+    (rewards.getD i {}).growth < TWO128 := by
+  have hz : (0 : Nat) < TWO128 := by decide
+  unfold List.getD
+  cases hget : rewards[i]? with
+  | none => exact hz
+  | some r => exact h r (List.mem_of_getElem? hget)
+
+theorem set_wf (rewards : List RewardInfo) (h : ∀ r ∈ rewards, r.growth < TWO128) (i : Nat) (v : RewardInfo)
+    (hv : v.growth < TWO128) : ∀ r ∈ rewards.set i v, r.growth < TWO128 := by
+  intro r hr
+  rcases List.mem_or_eq_of_mem_set hr with a | a
+  · exact h r a
+  · rw [a]; exact hv
+
+theorem wfR_of_same (s st : HistState) (w : WfR s) (e1 : st.ticks = s.ticks) (e2 : ∀ r ∈ st.pool.rewards, r.growth < TWO128) : WfR st :=
+  { ticks := by rw [e1]; exact w.ticks, glob := e2 }
+
+theorem reward_wfR (s : HistState) (i e t : Nat) (w : WfR s) : WfR (histReward s i e t).1 := by
+  unfold histReward
+  simp only []
+  split
+  · exact w
+  · split
+    · exact w
+    · rename_i s1 hs1
+      have h1 : WfR s1 := by
+        split at hs1
+        · cases hs1; exact w
+        · split at hs1
+          · cases hs1
+            exact wfR_of_same s _ w rfl (set_wf _ w.glob _ _ (getD_info_lt _ w.glob i))
+          · cases hs1
+      have h2 : WfR { s1 with rewardVaults := s1.rewardVaults.set i (s1.rewardVaults.getD i 0 + t) } := wfR_of_same s1 _ h1 rfl h1.glob
+      split
+      · exact h2
+      · split
+        · exact h2
+        · split
+          · exact h2
+          · rename_i next hnext
+            have hn := next_rewards_wf _ _ _ h2.glob hnext
+            exact wfR_of_same _ _ h2 rfl (set_wf _ hn _ _ (getD_info_lt _ hn i))
+
+theorem wfR_other (s s' : HistState) (op : HistOp) (outs : List Nat) (w : WfR s)
+    (hop : (∀ a l i d ar, op ≠ .swap a l i d ar) ∧ (∀ i a p, op ≠ .modify i a p))
+    (h : histStep s op = .ok (s', outs)) : WfR s' := by
+  cases op with
+  | swap a l i d ar => exact absurd rfl (hop.1 a l i d ar)
+  | modify i a p => exact absurd rfl (hop.2 i a p)
+  | reward i e t => unfold histStep at h; cases h
+  | openPos id lo hi =>
+    unfold histStep at h
+    simp only [] at h
+    split at h
+    · cases h
+    · split at h
+      · cases h
+      · split at h
+        · cases h
+        · simp only [Except.ok.injEq, Prod.mk.injEq] at h
+          obtain ⟨h1, _⟩ := h; subst h1
+          exact wfR_of_same s _ w rfl w.glob
+  | upd id =>
+    unfold histStep at h
+    simp only [] at h
+    split at h
+    · cases h
+    · split at h
+      · cases h
+      · rename_i pos _ u hu
+        simp only [Except.ok.injEq, Prod.mk.injEq] at h
+        obtain ⟨h1, _⟩ := h; subst h1
+        refine wfR_of_same s _ w rfl ?_
+        show ∀ r ∈ u.rewards, r.growth < TWO128
+        unfold calculateModifyLiquidity at hu
+        split at hu
+        · cases hu
+        · split at hu
+          · cases hu
+          · rename_i rewards hrw
+            have hrwf := next_rewards_wf _ _ _ w.glob hrw
+            split at hu
+            · cases hu
+            · split at hu
+              · cases hu
+              · split at hu
+                · cases hu
+                · simp only [] at hu
+                  split at hu
+                  · cases hu
+                  · cases hu; exact hrwf
+  | cfees id =>
+    unfold histStep at h
+    simp only [] at h
+    split at h
+    · cases h
+    · split at h
+      · cases h
+      · simp only [Except.ok.injEq, Prod.mk.injEq] at h
+        obtain ⟨h1, _⟩ := h; subst h1
+        exact wfR_of_same s _ w rfl w.glob
+  | cproto =>
+    unfold histStep at h
+    simp only [] at h
+    split at h
+    · cases h
+    · simp only [Except.ok.injEq, Prod.mk.injEq] at h
+      obtain ⟨h1, _⟩ := h; subst h1
+      exact wfR_of_same s _ w rfl w.glob
+  | clock now =>
+    unfold histStep at h
+    simp only [Except.ok.injEq, Prod.mk.injEq] at h
+    obtain ⟨h1, _⟩ := h; subst h1
+    exact wfR_of_same s _ w rfl w.glob
+  | crew id i =>
+    unfold histStep at h
+    simp only [] at h
+    split at h
+    · cases h
+    · split at h
+      · cases h
+      · simp only [Except.ok.injEq, Prod.mk.injEq] at h
+        obtain ⟨h1, _⟩ := h; subst h1
+        exact wfR_of_same s _ w rfl w.glob
+
+theorem apply_keeps_wfR (s : HistState) (op : HistOp) (inv : Inv s) (g : Geo ts0 s) (w : WfR s) (hop : OpOK ts0 op) :
+    WfR (histApply s op) := by
+  have other : ∀ (s' : HistState) (outs : List Nat), (∀ a l i d ar, op ≠ .swap a l i d ar) → (∀ i a p, op ≠ .modify i a p) →
+      histStep s op = .ok (s', outs) → WfR s' := fun s' outs a b h => wfR_other s s' op outs w ⟨a, b⟩ h
+  cases hop' : op with
+  | reward i e t => exact reward_wfR s i e t w
+  | swap amount limit isInput aToB arrays =>
+    cases h : histStep s (.swap amount limit isInput aToB arrays) with
+    | error e => rw [apply_err s _ e (by intro _ _ _ hh; cases hh) h]; exact w
+    | ok r =>
+      obtain ⟨s', outs⟩ := r
+      rw [apply_ok s s' _ outs (by intro _ _ _ hh; cases hh) h]
+      rw [hop'] at hop
+      unfold OpOK at hop
+      rw [← g.spacing] at hop
+      exact (swap_step_reward s s' amount limit isInput aToB arrays outs inv g w hop.1 hop.2 h).1
+  | modify id a p =>
+    cases h : histStep s (.modify id a p) with
+    | error e => rw [apply_err s _ e (by intro _ _ _ hh; cases hh) h]; exact w
+    | ok r => obtain ⟨s', outs⟩ := r; rw [apply_ok s s' _ outs (by intro _ _ _ hh; cases hh) h]; exact wfR_modify s s' id a p outs w h
+  | openPos id lo hi =>
+    rw [hop'] at other
+    cases h : histStep s (.openPos id lo hi) with
+    | error e => rw [apply_err s _ e (by intro _ _ _ hh; cases hh) h]; exact w
+    | ok r =>
+      obtain ⟨s', outs⟩ := r; rw [apply_ok s s' _ outs (by intro _ _ _ hh; cases hh) h]
+      exact other s' outs (by intro _ _ _ _ _ hh; cases hh) (by intro _ _ _ hh; cases hh) h
+  | upd id =>
+    rw [hop'] at other
+    cases h : histStep s (.upd id) with
+    | error e => rw [apply_err s _ e (by intro _ _ _ hh; cases hh) h]; exact w
+    | ok r =>
+      obtain ⟨s', outs⟩ := r; rw [apply_ok s s' _ outs (by intro _ _ _ hh; cases hh) h]
+      exact other s' outs (by intro _ _ _ _ _ hh; cases hh) (by intro _ _ _ hh; cases hh) h
+  | cfees id =>
+    rw [hop'] at other
+    cases h : histStep s (.cfees id) with
+    | error e => rw [apply_err s _ e (by intro _ _ _ hh; cases hh) h]; exact w
+    | ok r =>
+      obtain ⟨s', outs⟩ := r; rw [apply_ok s s' _ outs (by intro _ _ _ hh; cases hh) h]
+      exact other s' outs (by intro _ _ _ _ _ hh; cases hh) (by intro _ _ _ hh; cases hh) h
+  | cproto =>
+    rw [hop'] at other
+    cases h : histStep s .cproto with
+    | error e => rw [apply_err s _ e (by intro _ _ _ hh; cases hh) h]; exact w
+    | ok r =>
+      obtain ⟨s', outs⟩ := r; rw [apply_ok s s' _ outs (by intro _ _ _ hh; cases hh) h]
+      exact other s' outs (by intro _ _ _ _ _ hh; cases hh) (by intro _ _ _ hh; cases hh) h
+  | clock now =>
+    rw [hop'] at other
+    cases h : histStep s (.clock now) with
+    | error e => rw [apply_err s _ e (by intro _ _ _ hh; cases hh) h]; exact w
+    | ok r =>
+      obtain ⟨s', outs⟩ := r; rw [apply_ok s s' _ outs (by intro _ _ _ hh; cases hh) h]
+      exact other s' outs (by intro _ _ _ _ _ hh; cases hh) (by intro _ _ _ hh; cases hh) h
+  | crew id i =>
+    rw [hop'] at other
+    cases h : histStep s (.crew id i) with
+    | error e => rw [apply_err s _ e (by intro _ _ _ hh; cases hh) h]; exact w
+    | ok r =>
+      obtain ⟨s', outs⟩ := r; rw [apply_ok s s' _ outs (by intro _ _ _ hh; cases hh) h]
+      exact other s' outs (by intro _ _ _ _ _ hh; cases hh) (by intro _ _ _ hh; cases hh) h
+
+/-- **C11 over histories**: after ANY history of a pool started empty, ANY further swap accrues each
+    initialized reward once, at its start (`nextRewardInfos` — C11.accrual_spec), and its crossings
+    move no reward between ranges: the reward growth inside every liquidity-bearing range, read
+    against the accrued global growth, is the same after the swap as before it. -/
+theorem history_reward_growth (p : PoolD) (now : Nat) (af : Option AfInfo) (ops : List HistOp)
+    (inv0 : Inv { pool := p, now := now, af := af }) (g0 : Geo ts0 { pool := p, now := now, af := af })
+    (hR : ∀ r ∈ p.rewards, r.growth < TWO128) (hops : ∀ op ∈ ops, OpOK ts0 op)
+    (amount limit : Nat) (isInput aToB : Bool) (arrays : List Int) (s' : HistState) (outs : List Nat)
+    (hseq : SeqOK arrays ts0 aToB) (hamt : amount ≤ U64_MAX)
+    (h : histStep (ops.foldl histApply { pool := p, now := now, af := af }) (.swap amount limit isInput aToB arrays) = .ok (s', outs)) :
+    let s := ops.foldl histApply { pool := p, now := now, af := af }
+    nextRewardInfos s.pool s.now = .ok s'.pool.rewards ∧
+    ∀ i, i < 3 → (s'.pool.rewards.getD i {}).initialized = true → ∀ lo hi, lo < hi → Bound s.positions lo → Bound s.positions hi →
+      C07.insideInit s'.pool.tick lo (ro i (s'.ticks.get lo)) hi (ro i (s'.ticks.get hi)) (s'.pool.rewards.getD i {}).growth =
+        C07.insideInit s.pool.tick lo (ro i (s.ticks.get lo)) hi (ro i (s.ticks.get hi)) (s'.pool.rewards.getD i {}).growth := by
+  intro s
+  have w0 : WfR { pool := p, now := now, af := af } :=
+    { ticks := fun t i _ => by
+        have hz : (0 : Nat) < TWO128 := by decide
+        show ro i (TickMap.get [] t) < TWO128
+        unfold TickMap.get ro List.getD
+        show (([0, 0, 0] : List Nat)[i]?).getD 0 < TWO128
+        match i with
+        | 0 => exact hz
+        | 1 => exact hz
+        | 2 => exact hz
+        | (k + 3) => exact hz,
+      glob := hR }
+  have key : ∀ (ops : List HistOp) (st : HistState), Inv st → Geo ts0 st → WfR st → (∀ op ∈ ops, OpOK ts0 op) →
+      Inv (ops.foldl histApply st) ∧ Geo ts0 (ops.foldl histApply st) ∧ WfR (ops.foldl histApply st) := by
+    intro ops
+    induction ops with
+    | nil => intro st a b c _; exact ⟨a, b, c⟩
+    | cons op rest ih =>
+      intro st a b c hh
+      obtain ⟨i1, g1⟩ := apply_keeps st op a b (hh op List.mem_cons_self)
+      have w1 := apply_keeps_wfR st op a b c (hh op List.mem_cons_self)
+      exact ih _ i1 g1 w1 (fun o ho => hh o (List.mem_cons_of_mem _ ho))
+  obtain ⟨i1, g1, w1⟩ := key ops _ inv0 g0 w0 hops
+  have hseq' : SeqOK arrays s.pool.ts aToB := by rw [g1.spacing]; exact hseq
+  obtain ⟨_, q1, q2⟩ := swap_step_reward s s' amount limit isInput aToB arrays outs i1 g1 w1 hseq' hamt h
+  exact ⟨q1, q2⟩
 
 end WP.Reach
